@@ -504,6 +504,8 @@ def codegen_sqrt(x):
     https://doi.org/10.1002/mma.8639
     """
     alg = x.algebra
+    if not len(x):
+        return {}  # The square root of the multivector that stores no blade is that multivector.
     if x.grades == (0,):
         return {0: f'({str(x.e)}**0.5)'}
     a, bI = x.grade(0), x - x.grade(0)
